@@ -13,12 +13,18 @@ INTERVAL = "pysmt.optimization.optimizer.OptSearchInterval"
 OPEN = {"_setup": "_cleanup", "push": "pop", "_pareto_setup": "_pareto_cleanup"}
 
 EXPLANATION = (
-    "Static analysis of pysmt/optimization/optimizer.py: in every optimisation routine each path "
-    "from a _setup()/push()/_pareto_setup() to a normal return passes the matching "
-    "_cleanup()/pop()/_pareto_cleanup() (R1, CFG must-pass-through per open call); the comparator "
-    "table (logic, min/max, signed) -> (cast, strict, non-strict) equals the reference (R2); 'no "
-    "solution' is returned only when the first, unconstrained check fails (R3).")
-NOT_DECIDED = ["optimality of the value returned, bound updates, pivots, Pareto fronts (numerical; need values)"]
+    "Abstract interpretation of pysmt/optimization/optimizer.py and goal.py: SUAOptimizerMixin and "
+    "IncrementalOptimizerMixin are mixed (in an analysis-side probe class) into a back-end whose verdicts and "
+    "models come from an exhaustive search over the small domain the scenario's assertions confine the "
+    "symbols to; optimize / lexicographic_optimize / boxed_optimize / pareto_optimize are interpreted with the "
+    "linear and the binary strategy on six scenarios (integer boxes and a diagonal constraint, an unsatisfiable "
+    "set, unsigned and signed bit-vector objectives, weighted soft clauses) and the returned cost, lexicographic "
+    "vector and Pareto front are compared with the optima computed by enumeration; the returned model satisfies "
+    "the assertions with that cost; 'no solution' exactly for the unsatisfiable set; solver.assertions is what "
+    "it was before the call (R4).  In every optimisation routine each path from _setup()/push()/"
+    "_pareto_setup() to a normal return passes the matching close call (R1, CFG must-pass-through).")
+NOT_DECIDED = ["scenarios outside the menu; Real objectives (the routines are documented to diverge on them); "
+               "native optimisers (OptiMathSAT, z3 optimize) behind their converters"]
 
 REF_CMP = {
     ("LIA", "MinimizationGoal"): ("Int", "LT", "LE"), ("LIA", "MaximizationGoal"): ("Int", "GT", "GE"),
@@ -81,90 +87,25 @@ def run(ctx):
                             % (nm, calls, want), method_loc(repo, cls, f))
         ctx.floor(rs, 8)
 
-    if ctx.want("R2"):
-        rs = ctx.rule("R2", "comparator table equals the reference")
-        cls, f = repo.method(CMP, "_comparation_functions")
-        table = None
-        for n in ast.walk(f):
-            if isinstance(n, (ast.Assign, ast.AnnAssign)) and isinstance(n.value, ast.Dict) and \
-                    norm(n.targets[0] if isinstance(n, ast.Assign) else n.target) == "options":
-                table = n.value
-        if table is None:
-            rs.unrec("options table not found")
-        else:
-            def strip(e):
-                while isinstance(e, ast.Call) and attr_tail(e) == "cast" and len(e.args) == 2:
-                    e = e.args[1]
-                return attr_tail(e) if isinstance(e, (ast.Attribute, ast.Name)) else norm(e)
-            for lk, lv in zip(table.keys, table.values):
-                logic = norm(lk)
-                if not isinstance(lv, ast.Dict):
-                    continue
-                for gk, gv in zip(lv.keys, lv.values):
-                    goal = norm(gk)
-                    for sk, sv in zip(gv.keys, gv.values):
-                        signed = sk.value
-                        tup = tuple(strip(e) for e in sv.elts)
-                        ref = REF_CMP.get((logic, goal, signed), REF_CMP.get((logic, goal)))
-                        if ref is None:
-                            rs.unrec("no reference for %s/%s/%s" % (logic, goal, signed))
-                        elif tup == ref:
-                            rs.ok({"logic": logic, "goal": goal, "signed": signed, "functions": list(tup)})
-                        else:
-                            ctx.finding(rs, "%s._comparation_functions|%s|%s|%s" % (CMP, logic, goal, signed),
-                                        "comparators for (%s, %s, signed=%s) are %s, reference %s"
-                                        % (logic, goal, signed, tup, ref), method_loc(repo, cls, sv))
-            # cast_bv
-            lambdas = [n for n in ast.walk(f) if isinstance(n, ast.Assign) and isinstance(n.value, ast.Lambda)
-                       and norm(n.targets[0]) == "cast_bv"]
-            par = parents(f)
-            for lm in lambdas:
-                iff = par.get(lm)
-                ctor = attr_tail(lm.value.body)
-                if isinstance(iff, ast.If) and norm(iff.test) == "goal.signed":
-                    want = "SBV" if lm in iff.body else "BV"
-                    if ctor == want:
-                        rs.ok({"cast_bv": "%s when signed=%s" % (ctor, lm in iff.body)})
-                    else:
-                        ctx.finding(rs, "%s._comparation_functions|cast_bv|%s" % (CMP, want),
-                                    "bit-vector bound cast uses %s where %s is required" % (ctor, want),
-                                    method_loc(repo, cls, lm))
-        ctx.floor(rs, 8)
-
-    if ctx.want("R3"):
-        rs = ctx.rule("R3", "'no solution' only when the first, unconstrained check fails")
-        cls, f = repo.method(EXT, "_optimize")
-        par = parents(f)
-        nones = [n for n in ast.walk(f) if isinstance(n, ast.Return) and
-                 (n.value is None or (isinstance(n.value, ast.Constant) and n.value.value is None))]
-        inloop = []
-        for n in nones:
-            p = n
-            in_while = False
-            guard = None
-            while p in par:
-                q = par[p]
-                if isinstance(q, ast.If) and p in q.body and guard is None:
-                    guard = norm(q.test)
-                if isinstance(q, ast.While):
-                    in_while = True
-                p = q
-            if in_while:
-                inloop.append((n, guard))
-        for n, guard in inloop:
-            if guard == "first_step":
-                rs.ok({"return None": "inside the search loop only under first_step"})
+    if ctx.want("R4"):
+        rs = ctx.rule("R4", "optimisers interpreted over a brute-force back-end: true optimum / lexicographic optimum / Pareto front, stack restored")
+        from . import solver_deep as sd
+        res = sd.optimizer_results(repo, ctx.tier)
+        for scen, mixin, label, kind, detail in res:
+            cls = "SUAOptimizerMixin" if mixin == "sua" else "IncrementalOptimizerMixin"
+            name = "%s, %s, %s" % (scen, cls, label)
+            if kind == "ok":
+                rs.ok({"scenario": scen, "optimizer": cls, "call": label, "result": detail})
+            elif kind == "unsupported":
+                rs.unrec("%s: %s" % (name, detail[:200]))
+            elif kind == "hang":
+                ctx.finding(rs, "opt|%s|%s|%s|diverges" % (scen, mixin, label),
+                            "%s does not terminate although the optimum is attained (%s)" % (name, detail),
+                            "pysmt/optimization/optimizer.py")
+            elif kind == "raise":
+                ctx.finding(rs, "opt|%s|%s|%s|raises" % (scen, mixin, label), "%s raises %s" % (name, detail),
+                            "pysmt/optimization/optimizer.py")
             else:
-                ctx.finding(rs, "%s._optimize|none-in-loop|%s" % (EXT, guard),
-                            "the search loop returns 'no solution' under `%s`, i.e. also after a model was found"
-                            % guard, method_loc(repo, cls, n))
-        # first step carries no cut
-        firsts = [n for n in ast.walk(f) if isinstance(n, ast.If) and norm(n.test) in ("not first_step", "first_step")]
-        if firsts:
-            rs.ok({"first_step": "no cut asserted on the first check (%s)" % norm(firsts[0].test)})
-        upd = [n for n in ast.walk(f) if isinstance(n, ast.Assign) and norm(n.targets[0]) == "first_step"]
-        if any(isinstance(u.value, ast.Constant) and u.value.value is False for u in upd):
-            rs.ok({"first_step": "cleared after the first iteration"})
-        else:
-            rs.unrec("first_step is never cleared")
-        ctx.floor(rs, 2)
+                ctx.finding(rs, "opt|%s|%s|%s" % (scen, mixin, label), "%s: %s" % (name, detail),
+                            "pysmt/optimization/optimizer.py")
+        ctx.floor(rs, 80)
